@@ -374,11 +374,34 @@ var Scenarios = []Directed{
 		s.End()
 		s.Blocks(6, allHdr)
 	}},
+	{"self_below_min", []string{"C10", "C11"}, fam(1), func(s *Script) {
+		// a validator's own stake falls below the minimum while delegations keep its total power high
+		s.Blocks(2, allHdr)
+		s.Begin(allHdr)
+		s.expect(OK(s.Stake(2, 2, "2e18")), "a2 becomes a validator candidate with the minimum self stake")
+		s.expect(OK(s.Stake(2, 2, "1e18")), "a2 adds a small self stake")
+		s.End()
+		s.Blocks(1, allHdr)
+		s.Begin(allHdr)
+		s.expect(OK(s.Stake(6, 2, "6e18")), "a6 delegates to a2")
+		s.End()
+		s.Blocks(3, allHdr)
+		s.Begin(allHdr)
+		ids := s.StakeIDs(2, 2)
+		s.expect(len(ids) == 2, "a2 has two self stakes")
+		if len(ids) == 2 {
+			s.expect(OK(s.Unstake(2, 2, ids[0])), "a2 releases its larger self stake: self power 1 < minimum 2, total 7")
+		}
+		s.End()
+		s.Blocks(6, allHdr)
+	}},
 	{"setdoc_and_accounts", []string{"C05", "C19", "C04"}, fam(0), func(s *Script) {
 		s.Blocks(2, allHdr)
 		s.Begin(allHdr)
 		s.expect(OK(s.SetDoc(4, "name-4", "https://example.org/4")), "setdoc")
 		s.expect(!OK(s.SetDoc(5, string(make([]byte, 2049)), "u")), "setdoc with an over-long name fails")
+		s.expect(!OK(s.SetDoc(5, "name-5", string(make([]byte, 2049)))), "setdoc with an over-long url fails")
+		s.expect(OK(s.SetDoc(5, string(make([]byte, 2048)), string(make([]byte, 2048)))), "setdoc at the length limits")
 		s.expect(OK(s.Transfer(4, 11, "2e18")), "transfer to an account that does not exist yet")
 		s.End()
 		s.Begin(allHdr)
